@@ -270,8 +270,17 @@ def r2(prog, run):
 
     def is_the_authenticated_keys(f, nid):
         # all key ids handed to authenticate(): values() of its own parameter - not of a local that was filtered (an empty filtered list means "all senders" to the storage)
-        t = f.fmt(nid, inline=False)
-        vs = [f.nodes[j] for j in f.walk(nid) if f.nodes[j]['k'] == 'var']
+        def leaves(g, x, depth=0):
+            out = []
+            for j in g.walk(x):
+                v = g.nodes[j]
+                if v['k'] != 'var':
+                    continue
+                d = g.single_def(v.get('decl')) if v.get('vk') == 'local' and depth < 3 else None
+                out += leaves(g, d, depth + 1) if d is not None else [v]
+            return out
+        t = f.fmt(nid, inline=True)
+        vs = leaves(f, nid)
         return 'values()' in t and bool(vs) and all(v.get('vk') == 'param' and v.get('decl') == key_param for v in vs)
     if calls and all(is_the_authenticated_keys(f, n['args'][1]) for f, i, n in calls) and \
             all(any(True for _ in l.calls(ATM + '::makePostponedTrustDecisions')) or True for l in [au]):
